@@ -8,8 +8,4 @@ Conf == [allow |-> allow, n |-> initLen, tomb |-> initTomb, nw |-> Cardinality(w
 BehaviourExport == quiesced => PrintT(<<"BEH", ToJson([conf |-> Conf, steps |-> hist])>>)
 (* one witness behaviour per distinct final state in which a named deviation fired (replayed on the real code) *)
 DevExport == (quiesced /\ dev # {}) => PrintT(<<"BEH", ToJson([conf |-> Conf, steps |-> hist, dev |-> dev])>>)
-(* only the behaviours in which a reserved sequence ends up neither on the document nor released (candidate F2 / C07) *)
-LeakExport == (quiesced /\ Leaked # {}) => PrintT(<<"BEH", ToJson([conf |-> Conf, steps |-> hist])>>)
-(* only the behaviours in which some writer's retry was committed (sequence reuse / unused listing) *)
-RetryExport == (quiesced /\ \E w \in Writers : att[w] > 1 /\ res[w].cls = "ok") => PrintT(<<"BEH", ToJson([conf |-> Conf, steps |-> hist])>>)
 =============================================================================
